@@ -1,7 +1,8 @@
 SPECIFICATION Spec
 CONSTANTS
-  Scenarios <- FileScenarios
-  DevSets <- AllDevSets
+  ScSeq <- FileScenarios
+  Listed <- FileDevs
+  Force <- ForceOff
 INVARIANT G_C17_OpenOnce
 INVARIANT G_C17_OpensCreated
 INVARIANT G_C17_Identity
@@ -11,6 +12,4 @@ INVARIANT G_C18_RepairedReload
 INVARIANT G_C27_Reject
 INVARIANT G_C27_Params
 INVARIANT G_C28_Location
-INVARIANT Terminates
 INVARIANT EmitOut
-CHECK_DEADLOCK FALSE
